@@ -118,26 +118,66 @@ func c08Intern(c *Ctx, p *Prog) {
 			}
 		})
 	}
+	// a captured variable is one value: loads of the same slot (in the function or, through the binding, in a closure)
+	// stand for it
+	rep := func(v ssa.Value, in *ssa.Function, mc *ssa.MakeClosure) ssa.Value {
+		if la := loadAddr(v); la != nil {
+			if fv, ok := la.(*ssa.FreeVar); ok && mc != nil {
+				for i, f := range in.FreeVars {
+					if f == fv {
+						return mc.Bindings[i]
+					}
+				}
+			}
+			if al, ok := la.(*ssa.Alloc); ok {
+				return al
+			}
+		}
+		return v
+	}
+	var predicate *ssa.MakeClosure // a closure that compares a candidate with the row (handed to slices.IndexFunc)
 	eachInstr(fn, func(_ *ssa.BasicBlock, in ssa.Instruction) {
 		call, ok := in.(*ssa.Call)
 		if !ok {
 			return
 		}
 		if sc := call.Call.StaticCallee(); sc != nil && sc.Signature.Recv() != nil && recvName(sc.Signature.Recv().Type()) == "keyNode" && len(call.Call.Args) == 2 && isStringSlice(call.Call.Args[1].Type()) {
-			compared = call.Call.Args[1]
+			compared = rep(call.Call.Args[1], fn, nil)
 		}
 	})
+	if compared == nil {
+		eachInstr(fn, func(_ *ssa.BasicBlock, in ssa.Instruction) {
+			mc, ok := in.(*ssa.MakeClosure)
+			if !ok {
+				return
+			}
+			cl := mc.Fn.(*ssa.Function)
+			eachInstr(cl, func(_ *ssa.BasicBlock, in2 ssa.Instruction) {
+				call, ok := in2.(*ssa.Call)
+				if !ok {
+					return
+				}
+				if sc := call.Call.StaticCallee(); sc != nil && sc.Signature.Recv() != nil && recvName(sc.Signature.Recv().Type()) == "keyNode" && len(call.Call.Args) == 2 && isStringSlice(call.Call.Args[1].Type()) {
+					compared = rep(call.Call.Args[1], cl, mc)
+					predicate = mc
+				}
+			})
+		})
+	}
+	if hashed != nil {
+		hashed = rep(hashed, fn, nil)
+	}
 	var copyFresh bool
 	for _, st := range storesToField(fn, valsF) {
 		if call, ok := st.Val.(*ssa.Call); ok {
 			if b, ok := call.Call.Value.(*ssa.Builtin); ok && b.Name() == "append" && len(call.Call.Args) == 2 {
-				copied = call.Call.Args[1]
+				copied = rep(call.Call.Args[1], fn, nil)
 				if k, ok := call.Call.Args[0].(*ssa.Const); ok && k.IsNil() {
 					copyFresh = true
 				}
 			}
 		} else {
-			copied = st.Val
+			copied = rep(st.Val, fn, nil)
 		}
 	}
 	if hashed == nil || compared == nil || copied == nil {
@@ -153,6 +193,16 @@ func c08Intern(c *Ctx, p *Prog) {
 		for _, e := range phi.Edges {
 			if sl, ok := e.(*ssa.Slice); ok && sl.X == phi {
 				trimmed = true
+			}
+		}
+	}
+	// a captured row variable: trimmed in place by row = row[:len(row)-1]
+	if al, ok := hashed.(*ssa.Alloc); ok {
+		for _, r := range *al.Referrers() {
+			if st, ok := r.(*ssa.Store); ok && st.Addr == al {
+				if sl, ok := st.Val.(*ssa.Slice); ok && sl.Low == nil && sl.High != nil && loadAddr(sl.X) == ssa.Value(al) {
+					trimmed = true
+				}
 			}
 		}
 	}
@@ -224,9 +274,17 @@ func c08Intern(c *Ctx, p *Prog) {
 	for _, b := range fn.Blocks {
 		if ret, ok := b.Instrs[len(b.Instrs)-1].(*ssa.Return); ok {
 			for _, f := range factsAt(b) {
-				if call, ok := f.Cond.(*ssa.Call); ok && f.True && len(call.Call.Args) == 2 && call.Call.Args[1] == compared {
+				if call, ok := f.Cond.(*ssa.Call); ok && f.True && len(call.Call.Args) == 2 && rep(call.Call.Args[1], fn, nil) == compared {
 					_ = ret
 					okCmp = true
+				}
+				// i := slices.IndexFunc(candidates, sameRow); i >= 0
+				if bo, ok := f.Cond.(*ssa.BinOp); ok && predicate != nil {
+					if call, ok := bo.X.(*ssa.Call); ok && len(call.Call.Args) == 2 && stripConv(call.Call.Args[1]) == ssa.Value(predicate) {
+						if k, ok := constInt(bo.Y); ok && ((bo.Op == token.GEQ && k == 0 && f.True) || (bo.Op == token.LSS && k == 0 && !f.True) || (bo.Op == token.GTR && k == -1 && f.True)) {
+							okCmp = true
+						}
+					}
 				}
 			}
 		}
